@@ -66,7 +66,11 @@ def r2(ctx):
     fs = sites(fa, FLUSH_ALL)
     if not need(ctx, P, rule, "make_read_only: flush call", fs):
         return
-    f = fs[0]
+    # the flush that follows the clearing of the key: on the Some branch, or after both branches joined
+    fsome = [x for x in fs if fa.dominates(tr, x)] or [x for x in fs if fa.can_reach(tr, x)]
+    if not need(ctx, P, rule, "make_read_only: flush on the branch that clears the key", fsome):
+        return
+    f = fsome[0]
     a1 = assign_sites(fa, "self.key_pair.secret")
     a2 = assign_sites(fa, "self.header.key_pair.secret")
     for lbl, a in (("self.key_pair.secret", a1), ("self.header.key_pair.secret", a2)):
@@ -78,19 +82,30 @@ def r2(ctx):
             why = "value %s at %s" % (term_str(v)[:30], loc(fa, bb, si))
         ctx.check(P, rule, "%s = None before the flush" % lbl, good, "%s cleared on the Some branch before flushing" % lbl,
                   "%s is not set to None before flush_bitfield_and_tree_and_oplog (%s): the header written to disk still carries the secret key" % (lbl, why), [site_desc(fa, f)])
-    ct = fa.arg_origin(f, 1)
-    ctx.check(P, rule, "flush is called with clear_traces = true", term_is_lit(ct, 1), "flush_bitfield_and_tree_and_oplog(true)", "clear_traces argument is %s: the older header slot keeps the key" % term_str(ct), [site_desc(fa, f)])
-    c = checked(fa, f)
-    ctx.check(P, rule, "flush is awaited and ?-checked", c is not None, "checked", "flush result not ?-checked", [site_desc(fa, f)])
+    cs = {}
+    for x in fs:
+        ct = fa.arg_origin(x, 1)
+        ctx.check(P, rule, "flush is called with clear_traces = true", term_is_lit(ct, 1), "flush_bitfield_and_tree_and_oplog(true)", "clear_traces argument is %s: the older header slot keeps the key" % term_str(ct), [site_desc(fa, x)])
+        cs[x] = checked(fa, x)
+        ctx.check(P, rule, "flush is awaited and ?-checked", cs[x] is not None, "checked", "flush result not ?-checked", [site_desc(fa, x)])
     oks = ok_returns(fa)
     t_ok = [(bb, s, t) for bb, s, t in oks if term_is_lit(agg_field(t, "0"), 1)]
     f_ok = [(bb, s, t) for bb, s, t in oks if term_is_lit(agg_field(t, "0"), 0)]
-    ctx.check(P, rule, "Ok(true) only after the flush succeeded", c is not None and t_ok and all(fa.dominates(c["ok"], bb) for bb, _, _ in t_ok), "Ok(true) dominated by the flush's success edge",
+    def after_flush(bb):
+        return any(c_ is not None and fa.dominates(c_["ok"], bb) for c_ in cs.values())
+    ctx.check(P, rule, "Ok(true) only after the flush succeeded", bool(t_ok) and all(after_flush(bb) for bb, _, _ in t_ok), "Ok(true) dominated by the flush's success edge",
               "Ok(true) can be returned without a successful trace-clearing flush", [loc(fa, bb, s) for bb, s, _ in t_ok])
-    E = [e for e, _ in _effects(fa)]
-    okk, hit = edge_returns_without(fa, fl, E)
-    ctx.check(P, rule, "already read-only: Ok(false), nothing changed", okk and f_ok and all(fa.dominates(fl, bb) for bb, _, _ in f_ok), "None branch returns Ok(false) effect-free",
-              "the already-read-only branch is not effect-free (%s)" % [loc(fa, h) for h in hit])
+    # a core that is already read-only may have been recovered from a crash between the two header
+    # writes of an earlier make_read_only: the slot that is not current then still holds the key, and
+    # this call is the only one that can scrub it (defect D19) — it reports "nothing changed" only
+    # after the same trace-clearing flush
+    ctx.check(P, rule, "already read-only: Ok(false) only after both header slots were rewritten", bool(f_ok) and all(fa.dominates(fl, bb) and after_flush(bb) for bb, _, _ in f_ok),
+              "Ok(false) dominated by the success edge of a trace-clearing flush",
+              "make_read_only returns Ok(false) on a core without a secret key in memory without rewriting the header slots: after a crash between the two header writes of an earlier call the other slot keeps the secret key for good",
+              [loc(fa, bb, s) for bb, s, _ in f_ok], key="C12|C12.R2|make_read_only|already read-only scrubs")
+    E = [e for e, _ in _effects(fa) if e not in fs]
+    hit = [e for e in E if e in region(fa, fl)]
+    ctx.check(P, rule, "already read-only: nothing but that flush", not hit, "no other effect on the None branch", "the already-read-only branch has further effects (%s)" % [loc(fa, h) for h in hit])
     # the flush routine forwards header and clear_traces to Oplog::flush
     ff = ctx.real_body(FLUSH_ALL, [OPLOG_FLUSH])
     if need(ctx, P, rule, FLUSH_ALL, ff):
@@ -282,7 +297,7 @@ def r7(ctx):
 RULES = [r1, r2, r3, r4, r5, r6, r7]
 CONTROLS = ["c12_secret_exported_elsewhere"]
 EXPLANATION = ("C12 (secret key hygiene): decides that every effect of append_batch is dominated by the Some(secret) arm and the None arm returns Err(NotWritable) "
-               "effect-free (R1); that make_read_only clears both in-memory copies before a ?-checked flush with clear_traces = true and returns Ok(true) only after it (R2); "
+               "effect-free (R1); that make_read_only clears both in-memory copies before a ?-checked flush with clear_traces = true, returns Ok(true) only after it, and on a core that is already read-only returns Ok(false) only after the same flush — a crash between the two header writes of an earlier call leaves the key in the slot that is not current (R2); "
                "that a trace-clearing flush rewrites both header slots, each padded to the whole 4096-byte slot with zeros, truncating the log between the two writes so that a crash inside it recovers (R3); that SigningKey bytes are exported by exactly "
                "one function, used only inside the oplog header encoder, itself reached only through insert_header (R4); that open together with a key pair is rejected before "
                "storage is touched, that nothing takes / replaces / assigns options.key_pair on a way to that guard, and opening passes no key (R5); that the opened identity and writability come from the stored header (R6). R7: the header-slot fallback that recovers a crash during make_read_only remembers header bits consistent with the slot it uses (shared with C07.R5).")
